@@ -20,7 +20,7 @@ import ast
 
 from .. import lazy
 from ..astutil import call_name, calls, const_eval, dotted, names_in, param_names, stmts, walk_local, NotConst
-from ..exprnorm import same_expr
+from ..exprnorm import contains_expr, same_expr
 from ..core import AnalysisError, Mutant
 from ..layout import float_field_width, parse_spec
 
@@ -181,7 +181,7 @@ def run(ctx):
     # 1-based indices both ways
     t = ast.unparse(rd)
     ctx.ob("R1.index-base", CTAB, "_read_structure_from_ctab_v2000", "int(line[0:3]) - 1 / int(line[3:6]) - 1",
-           "int(line[0:3]) - 1" in t and "int(line[3:6]) - 1" in t and "int(atom_i_str) - 1" in t,
+           all(contains_expr(rd, x) for x in ("int(line[0:3]) - 1", "int(line[3:6]) - 1", "int(atom_i_str) - 1")),
            "file indices are 1-based: the reader must subtract what the writer adds", rd.lineno)
     # M  CHG
     chg = [n for n in walk_local(wr) if isinstance(n, ast.JoinedStr) and n.values and isinstance(n.values[0], ast.Constant)
@@ -344,11 +344,11 @@ def run(ctx):
            "CTfile charge codes: 1,2,3 = +3,+2,+1; 5,6,7 = -1,-2,-3; the reverse table must invert it", 1)
     # V3000 and V2000 use the same tables in both directions
     for fn in ("_read_structure_from_ctab_v2000", "_read_structure_from_ctab_v3000"):
-        ctx.ob("R3.table-used", CTAB, fn, "BOND_TYPE_MAPPING.get(...)", "BOND_TYPE_MAPPING.get(" in ast.unparse(s.func(fn)),
+        ctx.ob("R3.table-used", CTAB, fn, "BOND_TYPE_MAPPING.get(...)", any(isinstance(c, ast.Call) and call_name(c) == "BOND_TYPE_MAPPING.get" for c in ast.walk(s.func(fn))),
                "reader must map bond codes through BOND_TYPE_MAPPING", s.func(fn).lineno, nontrivial=False)
     for fn in ("_write_structure_to_ctab_v2000", "_write_structure_to_ctab_v3000"):
         ctx.ob("R3.table-used", CTAB, fn, "BOND_TYPE_MAPPING_REV.get(bond_type, default)",
-               "BOND_TYPE_MAPPING_REV.get(bond_type, default_bond_value)" in ast.unparse(s.func(fn)),
+               contains_expr(s.func(fn), "BOND_TYPE_MAPPING_REV.get(bond_type, default_bond_value)"),
                "writer must map bond types through BOND_TYPE_MAPPING_REV", s.func(fn).lineno, nontrivial=False)
 
     # RDKit tables
@@ -423,7 +423,10 @@ def run(ctx):
            bool(addc) and any(isinstance(st, ast.For) and ast.unparse(st.iter) == "coord" and any(x is addc[0] for x in ast.walk(st))
                               for st in ast.walk(tm)), "every model must become one conformer, in order", tm.lineno)
     ctx.ob("R4.charge-paired", RDK, "from_mol", "SetFormalCharge(atoms.charge) <-> atoms.charge = GetFormalCharge()",
-           "SetFormalCharge(atoms.charge[i].item())" in ast.unparse(tm) and "atoms.charge[_atom_idx] = rdkit_atom.GetFormalCharge()" in ast.unparse(fm),
+           any(isinstance(c, ast.Call) and isinstance(c.func, ast.Attribute) and c.func.attr == "SetFormalCharge" and len(c.args) == 1
+               and same_expr(c.args[0], "atoms.charge[i].item()") for c in ast.walk(tm))
+           and any(isinstance(st, ast.Assign) and same_expr(st.targets[0], "atoms.charge[_atom_idx]") and same_expr(st.value, "rdkit_atom.GetFormalCharge()")
+                   for st in ast.walk(fm)),
            "formal charge must be transferred both ways", fm.lineno, nontrivial=False)
 
     # ---------------- R5 SD grammar ------------------------------------------------
@@ -528,10 +531,13 @@ def run(ctx):
     # ctab end marker, header line count
     gs = sd.func("_get_ctab_stop")
     ctx.ob("R5.ctab-end", SDF, "_get_ctab_stop", "first 'M  END' after the header lines",
-           "range(_N_HEADER, len(lines))" in ast.unparse(gs) and "startswith('M  END')" in ast.unparse(gs)
-           and "return i + 1" in ast.unparse(gs), "the connection table ends after the first 'M  END' line", gs.lineno)
+           any(isinstance(lp, ast.For) and isinstance(lp.target, ast.Name) and same_expr(lp.iter, "range(_N_HEADER, len(lines))")
+               and any(isinstance(st, ast.If) and contains_expr(st.test, f"lines[{lp.target.id}].startswith('M  END')")
+                       and any(isinstance(r, ast.Return) and same_expr(r.value, f"{lp.target.id} + 1") for r in st.body) for st in lp.body)
+               for lp in ast.walk(gs)), "the connection table ends after the first 'M  END' line", gs.lineno)
     for fn in ("_write_structure_to_ctab_v2000", "_write_structure_to_ctab_v3000"):
-        ctx.ob("R5.ctab-end", CTAB, fn, "+ ['M  END']", "['M  END']" in ast.unparse(s.func(fn)),
+        ctx.ob("R5.ctab-end", CTAB, fn, "+ ['M  END']", any(isinstance(r, ast.Return) and isinstance(r.value, ast.BinOp) and isinstance(r.value.op, ast.Add) and same_expr(r.value.right, "['M  END']")
+                   for r in ast.walk(s.func(fn))),
                "the writer must terminate the table with 'M  END'", s.func(fn).lineno, nontrivial=False)
     hd = ctx.src(HEAD)
     hs = hd.func("Header.serialize")
@@ -567,7 +573,8 @@ def run(ctx):
     ctx.floor("R5.lazy-attributes", n_lazy, 2)
     # record names / order
     ctx.ob("R5.record-name", SDF, "SDFile.__setitem__", "record.header.mol_name = key",
-           "record.header.mol_name = key" in ast.unparse(sf["__setitem__"]) and "record.header.mol_name = mol_name" in ast.unparse(sf["__init__"]),
+           any(isinstance(st, ast.Assign) and same_expr(st.targets[0], "record.header.mol_name") and same_expr(st.value, "key") for st in ast.walk(sf["__setitem__"]))
+           and any(isinstance(st, ast.Assign) and same_expr(st.targets[0], "record.header.mol_name") and same_expr(st.value, "mol_name") for st in ast.walk(sf["__init__"])),
            "the record name must be written into the header, where deserialize reads it", sf["__setitem__"].lineno, nontrivial=False)
 
 
